@@ -310,7 +310,7 @@ func genOutAcc(r *harness.Rand) *vmcommon.OutputAccount {
 	if r.Chance(70) {
 		o.Address = r.Bytes(1 + r.Intn(3))
 	}
-	o.Nonce = uint64(r.Intn(5))
+	o.Nonce = []uint64{0, 1, 2, 3, 4, 1<<63 - 1, 1 << 63, 1<<63 + 1, ^uint64(0) - 1, ^uint64(0), 1 << 32}[r.Intn(11)]
 	if r.Chance(50) {
 		o.Balance = big.NewInt(int64(r.Intn(100)))
 	}
